@@ -170,6 +170,7 @@ func (p polSpec) ref() *refPolicy {
 	for _, d := range p.Deny {
 		rp.deny = append(rp.deny, parseRule(d))
 	}
+	rp.mapped = rp.hasMappedRule()
 	return rp
 }
 
@@ -271,7 +272,8 @@ func rawURL(scheme, userinfo, host, port, path string) string {
 // ---- one deliverer + oracle ---------------------------------------------------------
 
 type env struct {
-	pol polSpec
+	polIdx, seq int
+	pol         polSpec
 	ref *refPolicy
 	d   *dispatcher.HTTPDeliverer
 	tr  *recTransport
@@ -336,13 +338,15 @@ func hostGroup(host string) string {
 type finding struct{ key, msg string }
 
 // check applies the oracle of the property statement to one executed case.
-func (e *env) check(c *tcase, o outcome) (fs []finding, firstReason string, refAllowedPrefix int) {
+// firstReason: clause that forbids the first URL under every reading ("" = not forbidden); firstOpen: the statement
+// leaves the first URL open; refAllowedPrefix: number of leading URLs of the chain allowed under every reading.
+func (e *env) check(c *tcase, o outcome) (fs []finding, firstReason string, firstOpen bool, refAllowedPrefix int) {
 	var buf [1]addr
 	// (A) soundness: every request the transport was asked to send goes to a URL the policy allows
 	for i, s := range o.seen {
 		h := canonHost(hostOfAuthority(s.authority))
 		addrs, rcl := c.addrsOf(h, &buf)
-		if reason := e.ref.decide(s.scheme, h, addrs); reason != "" {
+		if reason, _ := e.ref.verdict(s.scheme, h, addrs); reason != "" {
 			pos := "first"
 			if i > 0 {
 				pos = "redirect-hop"
@@ -366,11 +370,11 @@ func (e *env) check(c *tcase, o outcome) (fs []finding, firstReason string, refA
 			break
 		}
 		addrs, _ := c.addrsOf(c.chain[k].Host, &buf)
-		reason := e.ref.decide(c.chain[k].Scheme, c.chain[k].Host, addrs)
+		reason, allowed := e.ref.verdict(c.chain[k].Scheme, c.chain[k].Host, addrs)
 		if k == 0 {
-			firstReason = reason
+			firstReason, firstOpen = reason, reason == "" && !allowed
 		}
-		if reason != "" {
+		if !allowed {
 			break
 		}
 		k++
@@ -405,7 +409,7 @@ func (e *env) check(c *tcase, o outcome) (fs []finding, firstReason string, refA
 				fmt.Sprintf("the policy (%s) allows every URL of the chain starting at %q but Deliver returned status=%d err=%v", e.pol.label(), c.url, o.status, o.err)})
 		}
 	}
-	return fs, firstReason, k
+	return fs, firstReason, firstOpen, k
 }
 
 // ---- enumeration ---------------------------------------------------------------------
@@ -433,16 +437,36 @@ func newStats() *wstats {
 type reporter struct {
 	r    *runner.Run
 	mu   sync.Mutex
-	seen map[string]int
-	real map[string]dispatcher.EgressPolicy
+	seen map[string]int   // violating cases per key
+	best map[string]*cand // smallest violating case per key (deterministic report)
+}
+
+// cand is one violating case; the smallest by rank is reported for its key so
+// that the replay artefact does not depend on goroutine scheduling.
+type cand struct {
+	rank [4]int // kind, resolver involvement, policy index, case sequence
+	pol  polSpec
+	real dispatcher.EgressPolicy
+	c    tcase
+	rc   replayCase
+	f    finding
+}
+
+func rankLess(a, b [4]int) bool {
+	for i := range a {
+		if a[i] != b[i] {
+			return a[i] < b[i]
+		}
+	}
+	return false
 }
 
 func (rep *reporter) report(e *env, real dispatcher.EgressPolicy, c *tcase, o outcome, f finding) {
+	rank := [4]int{len(c.chain), len(c.table), e.polIdx, e.seq}
 	rep.mu.Lock()
+	defer rep.mu.Unlock()
 	rep.seen[f.key]++
-	first := rep.seen[f.key] == 1
-	rep.mu.Unlock()
-	if !first {
+	if b := rep.best[f.key]; b != nil && !rankLess(rank, b.rank) {
 		return
 	}
 	rc := c.replay(e.pol)
@@ -457,28 +481,45 @@ func (rep *reporter) report(e *env, real dispatcher.EgressPolicy, c *tcase, o ou
 	cc.chain = append([]part(nil), c.chain...)
 	cc.plan = append([]hop(nil), c.plan...)
 	cc.table = append([]lookup(nil), c.table...)
-	pol := e.pol
-	rep.r.Violation(f.key, f.msg, rc, func() bool {
-		e2 := newEnv(pol, real)
-		o2 := e2.run(&cc)
-		fs, _, _ := e2.check(&cc, o2)
-		for _, g := range fs {
-			if g.key == f.key {
-				return true
+	rep.best[f.key] = &cand{rank: rank, pol: e.pol, real: real, c: cc, rc: rc, f: f}
+}
+
+// flush reports the smallest violating case of every key, in key order.
+func (rep *reporter) flush() {
+	rep.mu.Lock()
+	keys := make([]string, 0, len(rep.best))
+	for k := range rep.best {
+		keys = append(keys, k)
+	}
+	rep.mu.Unlock()
+	sort.Strings(keys)
+	for _, k := range keys {
+		b := rep.best[k]
+		rep.r.Violation(b.f.key, b.f.msg, b.rc, func() bool {
+			e2 := newEnv(b.pol, b.real)
+			o2 := e2.run(&b.c)
+			fs, _, _, _ := e2.check(&b.c, o2)
+			for _, g := range fs {
+				if g.key == b.f.key {
+					return true
+				}
 			}
-		}
-		return false
-	})
+			return false
+		})
+	}
 }
 
 // eval runs one case and records coverage.
 func (rep *reporter) eval(e *env, real dispatcher.EgressPolicy, c *tcase, st *wstats) {
+	e.seq++
 	o := e.run(c)
-	fs, firstReason, k := e.check(c, o)
+	fs, firstReason, firstOpen, k := e.check(c, o)
 	st.counters["evaluations"]++
 	st.counters["cases_"+c.kind]++
 	st.counters["requests_seen"] += int64(len(o.seen))
-	if firstReason == "" && !c.lenient {
+	if firstOpen && !c.lenient {
+		st.counters["ref_open"]++
+	} else if firstReason == "" && !c.lenient {
 		st.counters["ref_allow"]++
 	} else {
 		st.counters["ref_deny"]++
@@ -519,7 +560,7 @@ func (rep *reporter) eval(e *env, real dispatcher.EgressPolicy, c *tcase, st *ws
 	}
 	if _, have := st.samples[c.kind+"/"+verdict]; !have && !c.trivial && !c.lenient {
 		st.samples[c.kind+"/"+verdict] = (map[string]any{"kind": c.kind, "policy": e.pol.label(), "url": c.url, "plan": append([]hop(nil), c.plan...),
-			"resolver": c.resClass, "reference": map[string]any{"first_url_denied_by": firstReason, "allowed_chain_prefix": k}, "observed": verdict, "requests": len(o.seen)})
+			"resolver": c.resClass, "reference": map[string]any{"first_url_denied_by": firstReason, "first_url_open": firstOpen, "allowed_chain_prefix": k}, "observed": verdict, "requests": len(o.seen)})
 	}
 	for _, f := range fs {
 		st.counters["violating_cases"]++
@@ -537,8 +578,9 @@ var oddURLs = []struct{ url, group string }{
 }
 
 // enumeratePolicy walks the complete product for one policy.
-func (rep *reporter) enumeratePolicy(p polSpec, real dispatcher.EgressPolicy, dom *domain, st *wstats, deadline time.Time) bool {
+func (rep *reporter) enumeratePolicy(polIdx int, p polSpec, real dispatcher.EgressPolicy, dom *domain, st *wstats, deadline time.Time) bool {
 	e := newEnv(p, real)
+	e.polIdx = polIdx
 	defer func() {
 		st.counters["resolver_calls"] += int64(e.rs.calls)
 		st.counters["resolver_unknown_queries"] += int64(e.rs.unknown)
@@ -600,7 +642,7 @@ func (rep *reporter) enumeratePolicy(p polSpec, real dispatcher.EgressPolicy, do
 		s := &starts[i]
 		tc := tcase{table: s.table}
 		addrs, _ := tc.addrsOf(s.host, &buf)
-		if e.ref.decide("https", s.host, addrs) == "" {
+		if _, ok := e.ref.verdict("https", s.host, addrs); ok {
 			allowedStarts = append(allowedStarts, s)
 		}
 	}
@@ -773,13 +815,15 @@ func selfTest(r *runner.Run) {
 		{"10.0.0.0/8", "h", []string{"10.255.255.255"}, true}, {"10.0.0.0/8", "h", []string{"11.0.0.0"}, false}, {"10.0.0.0/8", "h", []string{pub4, "10.0.0.1"}, true},
 		{"10.0.0.0/8", "h", []string{"::ffff:10.0.0.1"}, true}, {"10.0.0.0/8", "h", nil, false}, {pub4, "h", []string{pub4}, true}, {pub4, "h", []string{"93.184.216.35"}, false},
 		{"fc00::/7", "h", []string{"fdff::1"}, true}, {"fc00::/7", "h", []string{"fe00::1"}, false}, {"fc00::/7", "h", []string{"10.0.0.1"}, false},
+		{"::ffff:10.0.0.1", "h", []string{"::ffff:10.0.0.1"}, true}, {"::ffff:10.0.0.1", "h", []string{"::ffff:a00:1"}, true}, {"::ffff:10.0.0.1", "h", []string{"10.0.0.1"}, false},
+		{"::ffff:10.0.0.0/104", "h", []string{"::ffff:10.9.9.9"}, true}, {"::ffff:10.0.0.0/104", "h", []string{"::ffff:11.0.0.0"}, false}, {"::ffff:10.0.0.1", "h", []string{"::10.0.0.1"}, false},
 		{"172.16.0.0/12", "h", []string{"172.31.255.255"}, true}, {"172.16.0.0/12", "h", []string{"172.32.0.0"}, false}, {"0.0.0.0/0", "h", []string{"::1"}, false},
 	} {
 		var as []addr
 		for _, s := range x.addrs {
 			as = append(as, mustAddr(s))
 		}
-		if got := parseRule(x.rule).matches(x.host, as); got != x.want {
+		if got := parseRule(x.rule).matches(x.host, as, false); got != x.want {
 			r.Infra("reference self-test: rule %q on host %q addrs %v = %v, want %v", x.rule, x.host, x.addrs, got, x.want)
 		}
 	}
@@ -944,7 +988,7 @@ func (rep *reporter) dispatcherLevel(t *testing.T) {
 		}
 		host := canonHost(hostOfAuthority(auth))
 		addrs, _ := tc.addrsOf(host, &buf)
-		reason := dc.pol.ref().decide(sch, host, addrs)
+		reason, _ := dc.pol.ref().verdict(sch, host, addrs)
 		if (reason != "") != dc.denied {
 			r.Infra("dispatcher case %s: reference says %q, table says denied=%v", dc.name, reason, dc.denied)
 			continue
@@ -1031,7 +1075,7 @@ func TestCheck(t *testing.T) {
 	deadline := r.Deadline(60*time.Second, 10*time.Minute)
 	initResolverAnswers(r)
 	selfTest(r)
-	rep := &reporter{r: r, seen: map[string]int{}}
+	rep := &reporter{r: r, seen: map[string]int{}, best: map[string]*cand{}}
 
 	if path := runner.ReplayPath(); path != "" {
 		rep.replayFile(t, path)
@@ -1083,7 +1127,7 @@ func TestCheck(t *testing.T) {
 		go func(st *wstats) {
 			defer wg.Done()
 			for i := range jobs {
-				ok := time.Now().Before(deadline) && rep.enumeratePolicy(pols[i], reals[i], dom, st, deadline)
+				ok := time.Now().Before(deadline) && rep.enumeratePolicy(i, pols[i], reals[i], dom, st, deadline)
 				mu.Lock()
 				if ok {
 					done++
@@ -1128,6 +1172,7 @@ func TestCheck(t *testing.T) {
 	for _, k := range skeys {
 		r.Sample(have[k])
 	}
+	rep.flush()
 	if incomplete > 0 {
 		r.NotExhaustive(fmt.Sprintf("wall budget reached: %d of %d policies enumerated completely", done, len(pols)))
 	}
@@ -1147,7 +1192,7 @@ func TestCheck(t *testing.T) {
 		"(kind, scheme, host class, resolver class, policy flags, allow class, deny class, observed verdict)")
 	r.Assume("the address set of a host is the resolver's answer at the time of the check; a change of the answer between check and connect (TOCTOU rebinding) is outside the statement and not modelled; one name has one answer within a case")
 	r.Assume("resolver failure or empty answer: the statement constrains only addresses that exist, so the reference uses an empty address set (scheme, host rules and an unmatched allowlist still forbid); the kind of error returned in that situation is not asserted")
-	r.Assume("an IPv4-mapped IPv6 address is the IPv4 address it embeds for IPv4 IP/CIDR rules as well as for dns_rebind_protection (the statement says so explicitly only for the latter); a rule written in IPv4-mapped notation is only required to match IPv4-mapped addresses (the same IPv6 address), not the native IPv4 spelling")
+	r.Assume("an IPv4-mapped IPv6 address is the IPv4 address it embeds for IPv4 IP/CIDR rules as well as for dns_rebind_protection (the statement says so explicitly only for the latter); a rule written in IPv4-mapped notation must match IPv4-mapped addresses (the same IPv6 address); whether it also covers the native IPv4 spelling is left open and judged in neither direction (counter ref_open)")
 	r.Assume("host canonicalisation: ASCII case-insensitive, one trailing dot ignored, IP literal = dotted quad or RFC 4291 text; decimal/hex/octal/short IPv4 notations are names and resolve only through the table (what the OS resolver would make of them is not modelled)")
 	r.Assume("allowed probes are asserted only for plainly spelled URLs (lower-case http/https, no userinfo, canonical host) with only public addresses; stricter behaviour on other spellings or on unlisted special-purpose ranges (documentation, CGNAT, broadcast) is not judged")
 	r.Assume("error kind for a denied redirect hop is not asserted (the statement only requires that the hop is not contacted); URLs the Go URL parser refuses or that carry no authority are only required to send nothing and fail")
@@ -1210,6 +1255,7 @@ func (rep *reporter) replayFile(t *testing.T, path string) {
 	fmt.Printf("  result: status=%d err=%v\n", o.status, o.err)
 	st := newStats()
 	rep.eval(e, real, c, st)
+	rep.flush()
 	for k, v := range st.counters {
 		r.Add(k, v)
 	}
